@@ -817,7 +817,7 @@ def main(tier):
           "SetExt ::= SET { a [%d] INTEGER, b [%d] INTEGER, ..., c [1] INTEGER, d [0] INTEGER }\n"
           # a long bit-string value printed before shorter ones: asn1f_printable_value wrote `'..'HH` without a terminator into its static
           # buffer, so the comment showed the tail of the longer text printed before (C12-printable-bitvector-unterminated, repaired)
-          "BitDef ::= SEQUENCE { a BIT STRING DEFAULT '00000010110011000'B, b BIT STRING DEFAULT '9A6B'H, c BIT STRING DEFAULT '101'B }\n"
+          "BitDef ::= SEQUENCE { a [0] BIT STRING DEFAULT '00000010110011000'B, b [1] BIT STRING DEFAULT '9A6B'H, c [2] BIT STRING DEFAULT '101'B }\n"
           "END\n") % (rng.range(5, 9), rng.range(2, 4))
     rich.append(({"name": "WitSetCxer", "text": ws, "blocks": ["witness-set-cxer"], "alph": {}, "ids": []}, OPTION_SETS[0], []))
     rich_futs = [pool.submit(case_rich, ctx, i, m, opts, extras) for i, (m, opts, extras) in enumerate(rich)]
